@@ -17,7 +17,7 @@ func (st *State) pushFrame(fn *ssa.Function, args []Val, bindings []Val, call ss
 	if len(st.frames) > 40 {
 		st.e.unsupportedf("call depth exceeded at %s", fn.String())
 	}
-	fr := &Frame{fn: fn, env: map[ssa.Value]Val{}, block: fn.Blocks[0], bindings: bindings, call: call, cut: map[*ssa.BasicBlock]bool{}}
+	fr := &Frame{fn: fn, env: map[ssa.Value]Val{}, block: fn.Blocks[0], bindings: bindings, call: call, cut: map[*ssa.BasicBlock]bool{}, loopEntry: map[int]*Snapshot{}}
 	if len(args) != len(fn.Params) {
 		st.e.unsupportedf("arity mismatch calling %s: %d vs %d", fn.String(), len(args), len(fn.Params))
 	}
